@@ -354,10 +354,10 @@ def _one_config(args):
             for i, o_ in enumerate(obs):
                 try:
                     with np.errstate(all="ignore"):
-                        F[i] = timed(lambda o_=o_: f(src, o_), 2.0)
+                        F[i] = timed(lambda o_=o_: f(src, o_), 1.0)
                 except _Timeout:
-                    bad.append((kind, p, o_.tolist(), fld, "no result within 2 s (iteration does not terminate)"))
-                    nfail += 1
+                    bad.append((kind, p, o_.tolist(), fld, "no result within 1 s for this single observer (iteration does not terminate)"))
+                    nfail += 20  # a few non-terminating observers are enough: do not spend minutes on the rest
                 except Exception as e:  # pylint: disable=broad-except
                     bad.append((kind, p, o_.tolist(), fld, f"raised {type(e).__name__}: {str(e)[:60]}"))
                     nfail += 1
